@@ -1076,6 +1076,15 @@ class Fn:
             v = su[1][1][0]
             tmpl = self.spec["updates"][v + "." + su[2]]
             return "let %s := %s in %s" % (self.var(v), self.apply(tmpl, [self.var(v)] + [self.ex(a, env) for a in su[3] if a[0] != "closure"]), after(env))
+        sc = s[1] if k == "expr" else None
+        while sc is not None and (sc[0] == "try" or (sc[0] == "field" and sc[2] == "await")):
+            sc = sc[1]
+        if sc is not None and sc[0] == "call" and sc[1][0] == "path" and "::".join(sc[1][1]) in self.spec.get("call_updates", {}):
+            idx, tmpl = self.spec["call_updates"]["::".join(sc[1][1])]
+            tgt = sc[2][idx]
+            if tgt[0] != "path" or len(tgt[1]) != 1 or tgt[1][0] not in env:
+                raise Unsupported("%s: argument %d is not a local variable" % ("::".join(sc[1][1]), idx))
+            return "let %s := %s in %s" % (self.var(tgt[1][0]), self.apply(tmpl, [self.ex(a, env) for a in sc[2]]), after(env))
         if su is not None and su[0] == "call" and su[1][0] == "path" and "::".join(su[1][1]) in self.spec.get("call_checks", {}):
             if s[1][0] != "try":
                 raise Unsupported("the result of %s is no longer propagated with `?`" % "::".join(su[1][1]))
@@ -2043,6 +2052,26 @@ def functions():
         return "Definition g_discover_local_with_meta (files : list (list Z)) (stat : list Z -> option fmeta) : metamap :=\n  %s." % text
     out.append(("discover_local_with_meta", "src/bin/copia/meta.rs discover_local_with_meta", None, t_discover_meta))
 
+    def t_fingerprint_path():
+        src = read("src/bin/copia/meta.rs")
+        params, ret, body = R.find_fn(src, "fingerprint_path", None)
+        if [n for n, _ in params] != ["full"]:
+            raise Unsupported("signature of fingerprint_path is %s" % params)
+        spec = dict(opt_try_calls=("std::fs::symlink_metadata", "std::fs::read_link", "std::fs::File::open"), try_none="None", try_transparent=True,
+                    calls={"std::fs::symlink_metadata": ("lstat (* {0} *)", "Option<Metadata>"), "std::fs::read_link": ("link_target (* {0} *)", "Option<Vec<u8>>"),
+                           "std::fs::File::open": ("file_content (* {0} *)", "Option<Vec<u8>>"), "blake3::hash": ("Hh {0}", "Hash"),
+                           ".as_os_str": ("{0}", "Vec<u8>"), ".as_encoded_bytes": ("{0}", "Vec<u8>"), ".as_bytes": ("{0}", "Hash"),
+                           "blake3::Hasher::new": ("(@nil Z)", "Hasher"), ".finalize": ("Hh {0}", "Hash"), ".file_type": ("{0}", "FileType")},
+                    typed_methods={("FileType", "is_symlink"): "is_symlink {0}"},
+                    call_updates={"std::io::copy": (1, "{1} ++ {0}")},
+                    paths={"FileType::Symlink": "Symlink", "FileType::File": "File"},
+                    structs={"Fingerprint": ("Build_fingerprint D", ["blake3", "ftype"], ["Hash", "FileType"])},
+                    ok=lambda s_: "Some " + paren(s_))
+        fn = Fn(spec)
+        text = fn.block(body, {"full": "Path"}, Ctx(val=(lambda x: x), ret=(lambda x: x), fall=None))
+        return "Definition g_fingerprint_path (lstat : option bool) (link_target file_content : option (list Z)) : option (fingerprint D) :=\n  %s." % text
+    out.append(("fingerprint_path", "src/bin/copia/meta.rs fingerprint_path", None, t_fingerprint_path))
+
     def t_dvalidate():
         src = read("src/delta.rs")
         spec = dict(fields={("Delta", "ops"): ("(d_ops _ {0})", "Vec<DeltaOp>"), ("Delta", "basis_size"): ("(d_basis_size _ {0})", "u64")},
@@ -2882,6 +2911,7 @@ GROUPS = {
     "ArchiveSave": ("Model.ArchiveSys", "archivesys", ["archive_save"]),
     "OneWaySys": ("Model.OneWaySys", "onewaysys", ["tmp_path", "deliver_local", "deliver_pull"]),
     "OneWayRun": ("Model.Glob Model.Plan Model.OneWay", "onewayrun", ["run_local"]),
+    "Fingerprint": ("Model.Reconcile", "fingerprintg", ["fingerprint_path"]),
     "LocalScan": ("Model.Glob Model.Plan Model.OneWay", "localscan", ["mtime_secs", "discover_local_with_meta"]),
     "ListingParse": ("Model.Glob Model.Plan Model.Listing", "listingparse", ["parse_listing"]),
     "OneWayPrint": ("Model.Glob Model.Plan Model.OneWay", "onewayprint", ["print_plan", "report"]),
@@ -3087,6 +3117,10 @@ def main():
                      "Record fmeta := { size_of : Z; modified_of : option Z }.\n"
                      "Definition since_epoch (t : Z) : option Z := if 0 <=? t then Some t else None.   (* duration_since(UNIX_EPOCH).ok() *)\n"
                      "Definition as_secs (d : Z) : Z := d / 1000000000.                                  (* Duration::as_secs *)\n\n" + "\n".join(texts))
+        elif digest == "fingerprintg":
+            body += ("\nSection WithDigest.\nVariable D : Type.\nVariable Hh : list Z -> D.\n"
+                     "(* symlink_metadata(full): None = error; Some b = b says whether the entry is a symbolic link *)\n"
+                     "Definition is_symlink (b : bool) : bool := b.\n\n" + "\n".join(texts) + "End WithDigest.\n")
         elif digest == "plainz":
             body += "\n" + "\n".join(texts)
         elif digest == "archivesys":
